@@ -72,7 +72,7 @@ func runC12(args []string) error {
 	distinct := distinctSet{}
 	nMini, nRich, nSnip, nMulti := 5, 5, 9, 20
 	if *tier == "thorough" {
-		nMini, nRich, nSnip, nMulti = 120, 150, 12, 500
+		nMini, nRich, nSnip, nMulti = 80, 100, 12, 300
 	}
 	id := 0
 	newID := func(input any) int {
